@@ -133,6 +133,8 @@ class Impl:
         if c == 'reset':
             self.__init__()
             return 'ok'
+        if c.startswith('m_'):
+            return 'ok'        # what eos's own customisations add: the model is told, eos does it itself
         if c == 'u_attr':
             _, src, aid, d, hig, st, mx = t
             self.ch(int(src)).mkattr(int(aid), default_value=opt(d, num), high_is_good=hig == '1',
@@ -466,8 +468,18 @@ class Impl:
             return sum(1 + len(v) for v in d.values())
         g = lambda n: getattr(a, '_AffectionRegister__' + n)  # noqa
         q = lambda n: getattr(p, '_ProjectionRegister__' + n)  # noqa
+        subs = calc._CalculationService__subscribed_affectors
+        specs = set()
+        for v in subs.values():
+            specs |= set(v)
+        # fits on which the calculator listens to ItemAdded (not in its static handler map)
+        from eos.pubsub.message import ItemAdded
+        pyfits = 0
+        for fit in ss.fits:
+            if calc in fit._FitMsgBroker__subscribers.get(ItemAdded, ()):
+                pyfits += 1
         return ('regs %d affectees=%d ae=%d ao_other=%d ao_await=%d ao_active=%d ao_filters=%d projectors=%d '
-                'carrier=%d carrierless=%d ptgts=%d tgtp=%d buffs=%d') % (
+                'carrier=%d carrierless=%d ptgts=%d tgtp=%d buffs=%d pysubs=%d pyfits=%d') % (
             s, len(g('affectees')),
             ks(g('affectees_domain')) + ks(g('affectees_domain_group')) + ks(g('affectees_domain_skillrq'))
             + ks(g('affectees_owner_skillrq')),
@@ -476,7 +488,7 @@ class Impl:
             + ks(g('affectors_owner_skillrq')),
             len(q('projectors')), ks(q('carrier_projectors')), len(q('carrierless_projectors')),
             ks(q('projector_tgts')), ks(q('tgt_projectors')),
-            ks(calc._CalculationService__warfare_buffs))
+            ks(calc._CalculationService__warfare_buffs), len(specs), pyfits)
 
 
 def set_penalty_base(v):
